@@ -320,6 +320,7 @@ func init() {
 		if thorough(r) {
 			b = 4
 		}
+		exploreChoiceOpts(r, registerAfterPriorCalls("c20.envelope"), 2, dl, 1)
 		exploreChoice(r, "c20.envelope", b, dl)
 		exploreChoice(r, "c20.tfm", -1, dl)
 		c20stats.Publish(r)
